@@ -317,6 +317,18 @@ def run(ctx):
     ctx.ob("R11.15", "parse_identifier vs skip_identifier", not bad15, site=A.where(fpi), detail={"mismatches": bad15[:6]},
            what="the scanner's identifier parser and the checker's disagree on %s: the checker counts one value where the scanner stops in the middle of the word" % bad15[:3])
 
+    # ---- R11.17: the scanner's choice of the value a range counts on from, evaluated
+    ctx.rule("R11.17", "LEFT-NEIGHBOUR (scanner): the statements of rtosc_scan_arg_val that compute what it hands to delta_from_arg_vals as the value before the range, evaluated on 13 slot layouts "
+                       "of the arguments already scanned, choose the slot before lhs after a scalar or a repetition `N x v`, the last element of a range with delta, and nothing after an array or at the start - "
+                       "whatever stands further left (a repetition two arguments back has its header where the header of a delta range would be)")
+    from ..rules import llhs as LL
+    try:
+        bad17, n17 = LL.check(u)
+    except FD.Unknown as e:
+        raise AnalysisBroken("R11.17: the scanner's choice of a range's left neighbour is not evaluable: %s" % e)
+    ctx.ob("R11.17", "left neighbour of a range, evaluated", not bad17, site=A.where(u.function("rtosc_scan_arg_val")), detail={"layouts": n17, "mismatches": bad17[:4]},
+           what="the scanner counts a range on from the wrong value: %s" % bad17[:3])
+
     # ---- R11.16: every step over an ellipsis has the ellipsis' length
     ctx.rule("R11.16", "ELLIPSIS-STEP: where a cursor known to stand on an ellipsis (compared with or searched for the literal `...`) is moved on by a constant and then "
                        "by `while(isspace(*++p))`, constant plus the pre-increment make exactly the three characters of the ellipsis - in the checker (right-hand side, end of the previous range) as in the scanner; "
